@@ -938,12 +938,6 @@ pub fn reduce_conjoin_inventory(ops: Ops, env: &mut Uiua) -> UiuaResult {
     for i in 0..f.sig.args() {
         args.push(env.pop(i + 1)?);
     }
-    if args.iter().any(|v| v.row_count() == 0)
-        && args.iter().all(|v| v.row_count() <= 1)
-        && push_empty_rows_value(&f, &args, false, &mut Default::default(), env)
-    {
-        return Ok(());
-    }
     let FixedRowsData {
         mut rows,
         row_count,
@@ -953,7 +947,8 @@ pub fn reduce_conjoin_inventory(ops: Ops, env: &mut Uiua) -> UiuaResult {
     let mut acc = if let Some(fv) = env.value_fill() {
         fv.value.clone()
     } else if row_count == 0 {
-        env.push(Array::<Boxed>::default());
+        // Joining the contents of no boxes gives an empty list
+        env.push(Value::default());
         return Ok(());
     } else if all_scalar {
         for rows in rows.into_iter().rev() {
